@@ -6,6 +6,9 @@
 
 pub mod common;
 pub mod engine;
+pub mod swgen;
+pub mod swgen_gen;
+pub mod swrun;
 mod c01;
 mod c02;
 mod c03;
